@@ -111,3 +111,26 @@ Proof. exact old_guard_accepts_int32max. Qed.
 Theorem C04_over_nul_examples : over_nul_examples = true.
 Proof. exact over_nul_examples_ok. Qed.
 Print Assumptions C04_over_nul_examples.
+
+(* ---- every outcome leaves a well-formed parser (TokStream.v) ----
+   Since the end-of-text test requires depth 0, a call that returns a value always ends at depth 0, so the
+   exception in C04_parse_total ("... or success at depth > 0") is empty: from a new or reset parser (hs_ok is kept by
+   every call, C03_hs_ok_kept) every call terminates in a well-formed state, whatever the bytes. *)
+From JC Require Import TokStream.
+
+Theorem C04_success_depth0 : forall sb t a t' v,
+  wf_tok t -> hs_ok t -> parse_ex sb t a = PR t' (Some v) -> depth t' = 0.
+Proof. exact success_depth0. Qed.
+Print Assumptions C04_success_depth0.
+
+Theorem C04_every_outcome_well_formed : forall sb t bytes,
+  wf_tok t -> hs_ok t -> exists t' r, parse_ex sb t bytes = PR t' r /\ wf_tok t'.
+Proof.
+  intros sb t bytes Hwf Hh. destruct (parse_total sb t bytes Hwf) as (t' & r & E & W).
+  exists t', r. split; [exact E|]. apply W.
+  destruct (TokTotal.parse_ex_outcome sb t bytes t' r E) as ([((v & ->) & _)|[(_ & Hc)|(_ & Hn & _)]] & _ & _).
+  - right. exact (success_depth0 sb t bytes t' v Hwf Hh E).
+  - left. rewrite Hc. discriminate.
+  - left. exact Hn.
+Qed.
+Print Assumptions C04_every_outcome_well_formed.
